@@ -488,7 +488,9 @@ def leg_converter(items, report):
                     ...
                 conv = impl_converter(stub)
                 out = conv(src(1))
-                ok = (out.a == 1 and (out.extra is value or (type(out.extra) is type(value) and out.extra == value))
+                both_nan = type(value) is float and type(out.extra) is float and value != value and out.extra != out.extra
+                ok = (out.a == 1 and (out.extra is value or both_nan or (type(out.extra) is type(value) and out.extra == value
+                                                                         and repr(out.extra) == repr(value)))
                       and inspect.signature(conv) == inspect.signature(stub))
             elif kind == "model_default":
                 try:
@@ -594,7 +596,8 @@ def run(tier):
     conv_items += [("function_name", x) for x in ids + ["g_coercer", "g__closure_signature", "g_S", "g_D", "g_convert", "coerce_S_to_D",
                                                         "g__stub_function", "g__update_wrapper", "_closure_maker", "g_g_coercer"]]
     conv_items += [("param_name", x) for x in ids if x not in ("s", "self")]
-    conv_items += [("stub_default", v) for v in (0, "x", None, 1.5, Color.RED, BadRepr(), CodeRepr(), [1], (1,), object, len, *SUBCLASSED)]
+    conv_items += [("stub_default", v) for v in (0, "x", None, 1.5, Color.RED, BadRepr(), CodeRepr(), [1], (1,), object, len, *SUBCLASSED,
+                                                      float("inf"), float("-inf"), float("nan"), -0.0, 10**30, b"\x00", 1e308, True)]
     conv_items += [("model_default", v) for v in CONSTANTS]
     conv_items += [("link_constant", v) for v in CONSTANTS]
     conv_items += [("link_function_name", x) for x in ids + DERIVED_NAMES + CLASS_NAMES]
